@@ -1,23 +1,261 @@
-(* C14 — the PIL reader builds exactly the declared system.
+(* C14 — the PIL reader builds exactly the declared system (with the reader clauses of
+   C15 and C16, which rest on the same model).
    Only property theorems: each is closed by `exact` and followed by Print Assumptions.
+
    `read_pil ct g ignore lines` is the model of objectio.read_pil on the parsed file
-   (Model/Reader.v) over the singleton-registry machine with class table ct and the five
-   configured class slots g. *)
+   (Model/Reader.v), a client of the singleton-registry machine with class table ct and
+   the five configured class slots g; `g cd cs cc cm cr` are the slots after
+   set_io_objects(D, S, C, M, R).  `RGood` is the session invariant (registry invariant +
+   every object an instance of exactly one configured class with data of its kind): it
+   holds in the empty session (C14_session_starts_good) and after every read
+   (C14_reader_keeps_session_good).  `line_okb` is the shape of the token trees the grammar
+   returns (Model/ReaderShape.v); `cfg_okb` says the five slots hold different classes of the
+   table and no class of a later slot is a subclass of an earlier slot's class. *)
 From Coq Require Import List NArith ZArith.
-From DSD Require Import Base.Str Base.Errors Model.ComplexUtils Model.Peg Model.Heap Model.Registry Model.Reader
-  Proofs.ReaderBasic.
+From DSD Require Import Base.Str Base.Errors Model.ComplexUtils Model.ReaderStr Model.Peg Model.Heap Model.Registry
+  Model.Reader Model.ReaderShape Proofs.RegInv Proofs.ReaderBasic Proofs.ReaderStmt Proofs.ReaderHeap Proofs.ReaderInv
+  Proofs.ReaderHoare Proofs.ReaderNoFault Proofs.ReaderThms Proofs.ReaderBuilds Proofs.ReaderExamples.
+From DSD Require Model.Iupac.
+From DSDGen Require Import ReaderConsts.
 Import ListNotations.
 
+(* ---- a line on its own = that line in a document ---- *)
+(* for every decodable line, read_pil_line is the typed statement executed (every pure step -
+   indexing, int(), float(), resolve_kernel_loops, read_reaction - done beforehand) *)
+Theorem C14_read_pil_line_is_exec_of_decoded_statement : forall ct g line s,
+  cfg_full g -> decode line = Ok s -> forall r, read_pil_line ct g line r = exec_stmt ct g line s r.
+Proof. exact read_pil_line_decode. Qed.
+Print Assumptions C14_read_pil_line_is_exec_of_decoded_statement.
+
+(* the object read_pil_line returns is the object the user gets when reading the line alone and
+   the object the document loop files: alive in both, same class / name / canonical form / data *)
+Theorem C14_line_eq_document_line : forall ct cd cs cc cm cr,
+  cfg_okb ct cd cs cc cm cr = true ->
+  forall line r r1 i,
+  line_okb (TList line) = true -> RGood ct cd cs cc cm cr r ->
+  read_pil_line ct (g cd cs cc cm cr) line r = (r1, Ok (RObj i)) ->
+  (exists r2, read_line_user ct (g cd cs cc cm cr) line r = (r2, Ok (RObj i)) /\
+              is_live (heap (r_st r2)) i = true /\ same_obj r1 r2 i) /\
+  (forall acc r3 acc', read_one ct (g cd cs cc cm cr) None (TList line) acc r = (r3, Ok acc') ->
+              is_live (heap (r_st r3)) i = true /\ same_obj r1 r3 i).
+Proof. exact line_eq_document_line. Qed.
+Print Assumptions C14_line_eq_document_line.
+
+(* ---- ignore ---- *)
 (* statement kinds listed in `ignore` are skipped: the read is the read of the document
-   without those statements (and without `ignore`), in every state and for every class
-   configuration *)
+   without those statements (and without `ignore`), in every state, for every configuration *)
 Theorem C14_ignore_skips : forall ct g ig lines r,
   read_pil ct g ig lines r = read_pil ct g None (filter (fun l => negb (line_ignored ig l)) lines) r.
 Proof. exact ignore_skips_read_pil. Qed.
 Print Assumptions C14_ignore_skips.
 
-Theorem C14_ignored_kind : forall ig tag rest,
-  (existsb (str_eqb tag) ig = true -> line_ignored (Some ig) (TList (TStr tag :: rest)) = true) /\
-  (existsb (str_eqb tag) ig = false -> line_ignored (Some ig) (TList (TStr tag :: rest)) = false).
-Proof. exact (fun ig tag rest => conj (line_ignored_tag ig tag rest) (line_ignored_other ig tag rest)). Qed.
-Print Assumptions C14_ignored_kind.
+Theorem C14_ignored_kind_listed : forall ig tag rest,
+  existsb (str_eqb tag) ig = true -> line_ignored (Some ig) (TList (TStr tag :: rest)) = true.
+Proof. exact line_ignored_tag. Qed.
+Print Assumptions C14_ignored_kind_listed.
+
+Theorem C14_ignored_kind_not_listed : forall ig tag rest,
+  existsb (str_eqb tag) ig = false -> line_ignored (Some ig) (TList (TStr tag :: rest)) = false.
+Proof. exact line_ignored_other. Qed.
+Print Assumptions C14_ignored_kind_not_listed.
+
+(* ---- C16: no interpreter-level fault ---- *)
+Theorem C14_session_starts_good : forall ct cd cs cc cm cr n, RGood ct cd cs cc cm cr (rinit (init ct n)).
+Proof. exact rgood_init. Qed.
+Print Assumptions C14_session_starts_good.
+
+Theorem C14_reader_keeps_session_good : forall ct cd cs cc cm cr,
+  cfg_okb ct cd cs cc cm cr = true ->
+  forall ig lines r, forallb line_okb lines = true -> RGood ct cd cs cc cm cr r ->
+  RGood ct cd cs cc cm cr (fst (read_pil ct (g cd cs cc cm cr) ig lines r)).
+Proof. exact reader_keeps_good. Qed.
+Print Assumptions C14_reader_keeps_session_good.
+
+(* read_pil of any list of well-shaped lines, in any good session, with any usable class
+   configuration: a dictionary, or an exception whose kind is none of NameError, TypeError,
+   AttributeError, IndexError, KeyError, UnboundLocalError, ValueError, ZeroDivisionError,
+   OverflowError *)
+Theorem C14_reader_no_fault : forall ct cd cs cc cm cr,
+  cfg_okb ct cd cs cc cm cr = true ->
+  forall ig lines r, forallb line_okb lines = true -> RGood ct cd cs cc cm cr r ->
+  forall r' k, read_pil ct (g cd cs cc cm cr) ig lines r = (r', Err k) -> is_fault k = false.
+Proof. exact reader_no_fault. Qed.
+Print Assumptions C14_reader_no_fault.
+
+Theorem C14_reader_no_fault_base_classes : forall ig lines,
+  forallb line_okb lines = true ->
+  forall r' k, read_pil base_ctable base_g ig lines (rinit (init base_ctable 0)) = (r', Err k) -> is_fault k = false.
+Proof. exact reader_no_fault_base. Qed.
+Print Assumptions C14_reader_no_fault_base_classes.
+
+Theorem C14_base_configuration_usable : cfg_of base_slots = Some base_g /\ cfg_okb base_ctable 0 2 1 3 4 = true.
+Proof. exact base_cfg_usable. Qed.
+Print Assumptions C14_base_configuration_usable.
+
+(* ---- C16: ignored reactions do not abort ---- *)
+Theorem C14_ignored_reaction_decodes_to_other : forall line ri,
+  tnth line 0 = Ok (TStr tReaction) -> read_reaction line = Ok ri -> reaction_ignored ri = true ->
+  decode line = Ok SOther.
+Proof. exact ignored_reactions_survive. Qed.
+Print Assumptions C14_ignored_reaction_decodes_to_other.
+
+Theorem C14_ignored_line_survives : forall ct cd cs cc cm cr line acc r,
+  decode line = Ok SOther ->
+  read_one ct (g cd cs cc cm cr) None (TList line) acc r =
+    (with_st r (collect (r_st r)),
+     Ok (mkOut (po_domains acc) (po_strands acc) (po_complexes acc) (po_macrostates acc)
+               (po_det acc) (po_con acc) (po_other acc ++ [line]))).
+Proof. exact ignored_line_survives. Qed.
+Print Assumptions C14_ignored_line_survives.
+
+(* ---- C16: a failed read leaves previously held objects valid ---- *)
+Theorem C14_failed_read_keeps_held : forall ct cd cs cc cm cr,
+  cfg_okb ct cd cs cc cm cr = true ->
+  forall ig lines r r' k, forallb line_okb lines = true -> RGood ct cd cs cc cm cr r ->
+  read_pil ct (g cd cs cc cm cr) ig lines r = (r', Err k) ->
+  roots (r_st r') = roots (r_st r) /\
+  forall s i, nth_error (roots (r_st r)) s = Some (Some i) ->
+    exists o o', hget (heap (r_st r)) i = Some o /\ hget (heap (r_st r')) i = Some o' /\ okill o o' /\
+                 o_live o' = true /\ Registered (r_st r') i o'.
+Proof. exact failed_read_keeps_held. Qed.
+Print Assumptions C14_failed_read_keeps_held.
+
+(* ---- C15: configured classes ---- *)
+Theorem C14_reader_classes : forall ct cd cs cc cm cr,
+  cfg_okb ct cd cs cc cm cr = true ->
+  forall ig lines r, forallb line_okb lines = true -> RGood ct cd cs cc cm cr r ->
+  let st' := r_st (fst (read_pil ct (g cd cs cc cm cr) ig lines r)) in
+  (forall i o, hget (heap st') i = Some o -> cls_kind_ok cd cs cc cm cr o) /\
+  (forall c n i, c < length ct -> In (n, i) (cs_names (cget st' c)) -> cls_at (heap st') i = Some c) /\
+  (forall c k i, c < length ct -> In (k, i) (cs_canon (cget st' c)) -> cls_at (heap st') i = Some c).
+Proof. exact reader_classes. Qed.
+Print Assumptions C14_reader_classes.
+
+(* outside such sessions the clause fails: with a strand built from a domain of a user subclass
+   already held, reading `X = s*` creates a* in that subclass (object 2, class 5 of the table,
+   not a configured slot) *)
+Theorem C14_reader_classes_refuted_in_mixed_sessions : created_outside_slots = [(2, 5, [97; 42]%N)].
+Proof. exact reader_classes_refuted. Qed.
+Print Assumptions C14_reader_classes_refuted_in_mixed_sessions.
+
+(* ---- the complement of a sequenced domain ---- *)
+Theorem C14_complement_sequence : forall ct g i d acc r r1 comp sq,
+  gD g = Some d -> isinst ct (r_st r) i d = true ->
+  invert ct i r = (r1, Ok comp) ->
+  attr_get i (r_seq r1) = Some sq -> attr_get comp (r_seq r1) = None ->
+  match Iupac.reverse_wc_complement false sq with
+  | Ok s' =>
+      exists acc', file_obj ct g (RObj i) acc r =
+                   (mkR (r_st r1) (attr_set comp s' (r_seq r1)) (r_conc r1) (r_rate r1), Ok (acc', [i; comp]))
+  | Err _ => file_obj ct g (RObj i) acc r = (r1, Err ePilFormat)
+  end.
+Proof. exact complement_sequence. Qed.
+Print Assumptions C14_complement_sequence.
+
+(* ---- the reader builds the declared domains ---- *)
+(* one `length` / `sequence` statement, read in any good session (hence at any position of a
+   document): the dictionary gets the entries name -> i and complement name -> j; i has exactly
+   the declared name, length and the configured class, j the complementary name and the same
+   length; both stay alive; the sequence attributes after the line are those before plus the
+   declared sequence on i and, when j had none, its reverse Watson-Crick complement on j *)
+Theorem C14_reader_builds_domain_line : forall ct cd cs cc cm cr,
+  cfg_okb ct cd cs cc cm cr = true ->
+  forall line s nm l sq acc r r' acc',
+  decode line = Ok s -> dom_stmt s = Some (nm, l, sq) -> stmt_ok s -> RGood ct cd cs cc cm cr r ->
+  read_one ct (g cd cs cc cm cr) None (TList line) acc r = (r', Ok acc') ->
+  exists i j,
+    acc' = with_domains acc (dset (cname_of nm) j (dset nm i (po_domains acc))) /\
+    IsDom cd (heap (r_st r')) i nm (Some l) /\ IsDom cd (heap (r_st r')) j (cname_of nm) (Some l) /\
+    is_live (heap (r_st r')) i = true /\ is_live (heap (r_st r')) j = true /\
+    r_seq r' = seq_after i j (seq_decl i sq (r_seq r)) /\
+    (forall x, attr_get i (seq_decl i sq (r_seq r)) = Some x -> attr_get j (seq_decl i sq (r_seq r)) = None ->
+               exists y, Iupac.reverse_wc_complement false x = Ok y) /\
+    r_conc r' = r_conc r /\ r_rate r' = r_rate r /\ RGood ct cd cs cc cm cr r' /\ RExt r r'.
+Proof. exact reader_builds_domain_line. Qed.
+Print Assumptions C14_reader_builds_domain_line.
+
+(* ANY document: every statement well-shaped (doc_line: it decodes and satisfies stmt_ok), the
+   domain declarations among them with pairwise different names (none the complement of
+   another), statements of the other kinds anywhere in between, in any order, read in a session
+   without sequence attributes.  If read_pil returns a dictionary, its `domains` field has
+   exactly the declared names and their complements as keys, and every declared domain /
+   complement has exactly the declared length, sequence (complement: reverse Watson-Crick
+   complement), name and class: statements of other kinds never touch the field or the
+   sequence attributes (frame) *)
+Theorem C14_reader_builds_domains : forall ct cd cs cc cm cr,
+  cfg_okb ct cd cs cc cm cr = true ->
+  forall lines ods r r' o,
+  Forall2 doc_line lines ods -> NoDup (flat_map d_names (decls_of ods)) ->
+  RGood ct cd cs cc cm cr r -> r_seq r = [] ->
+  read_lines ct (g cd cs cc cm cr) None lines empty_out r = (r', Ok o) ->
+  map fst (po_domains o) = flat_map d_names (decls_of ods) /\
+  Forall (entry_ok cd r' (po_domains o)) (decls_of ods).
+Proof. exact reader_builds_domains_doc. Qed.
+Print Assumptions C14_reader_builds_domains.
+
+Theorem C14_other_statements_leave_domains_alone : forall ct cd cs cc cm cr,
+  cfg_okb ct cd cs cc cm cr = true ->
+  forall line s acc r r' acc',
+  decode line = Ok s -> dom_stmt s = None -> stmt_ok s -> RGood ct cd cs cc cm cr r ->
+  read_one ct (g cd cs cc cm cr) None (TList line) acc r = (r', Ok acc') ->
+  po_domains acc' = po_domains acc /\ r_seq r' = r_seq r /\ RGood ct cd cs cc cm cr r' /\ RExt r r'.
+Proof. exact nondom_frame. Qed.
+Print Assumptions C14_other_statements_leave_domains_alone.
+
+(* ---- the reader builds the declared strands ---- *)
+(* one `strand` / `sup-sequence` statement, read in any good session: the dictionary gets
+   name -> i; i is a live instance of exactly the configured strand class with that name whose
+   sequence has exactly the listed domain names, and every element is the domain object that
+   is the registered singleton of its name in the configured domain class (the identical
+   object `Domain(name)` returns); no attribute of any other object changes *)
+Theorem C14_reader_builds_strand_line : forall ct cd cs cc cm cr,
+  cfg_okb ct cd cs cc cm cr = true ->
+  forall line nm ds acc r r' acc',
+  decode line = Ok (SComp nm ds) -> Forall nm_ok ds -> nonempty nm = true -> RGood ct cd cs cc cm cr r ->
+  read_one ct (g cd cs cc cm cr) None (TList line) acc r = (r', Ok acc') ->
+  exists i ob es,
+    acc' = with_strands acc (dset nm i (po_strands acc)) /\
+    hget (heap (r_st r')) i = Some ob /\ o_live ob = true /\ o_cls ob = cs /\ o_name ob = nm /\
+    o_data ob = DStrand es /\ map fst es = ds /\
+    Forall (ElemIs cd (r_st r')) es /\
+    r_seq r' = r_seq r /\ r_conc r' = r_conc r /\ r_rate r' = r_rate r /\ RGood ct cd cs cc cm cr r' /\ RExt r r'.
+Proof. exact reader_builds_strand_line. Qed.
+Print Assumptions C14_reader_builds_strand_line.
+
+(* ---- reactions: type, filing, rate constant and units ---- *)
+(* one reaction statement with a rate and a known type (decode gives SRxn), read in any good
+   session: the reaction object is a live instance of exactly the configured reaction class whose
+   type is the declared one; it is added to con_reactions when the declared type is `condensed`
+   and to det_reactions otherwise (the other set is untouched); its rate constant is float() of
+   the declared number and its units the declared units; nothing else is assigned *)
+Theorem C14_reader_builds_reaction_line : forall ct cd cs cc cm cr,
+  cfg_okb ct cd cs cc cm cr = true ->
+  forall line ri k acc r r' acc',
+  decode line = Ok (SRxn ri) -> ri_rate ri = Some k -> RGood ct cd cs cc cm cr r ->
+  read_one ct (g cd cs cc cm cr) None (TList line) acc r = (r', Ok acc') ->
+  exists i ob a c st1,
+    hget (heap (r_st r')) i = Some ob /\ o_live ob = true /\ o_cls ob = cr /\ o_data ob = DRxn a c (ri_type ri) /\
+    acc' = (if is_s (ri_type ri) sCondensed
+            then with_rxns acc (po_det acc) (set_add st1 i (po_con acc))
+            else with_rxns acc (set_add st1 i (po_det acc)) (po_con acc)) /\
+    r_rate r' = (i, (k, ri_units ri)) :: r_rate r /\ r_seq r' = r_seq r /\ r_conc r' = r_conc r /\
+    RGood ct cd cs cc cm cr r' /\ RExt r r'.
+Proof. exact reader_builds_reaction_line. Qed.
+Print Assumptions C14_reader_builds_reaction_line.
+
+(* ---- kernel-notation complexes: name, class, concentration triple ---- *)
+(* one kernel-notation statement, read in any good session: the complex filed under its name is a
+   live instance of exactly the configured complex class with that name; with `@mode value unit`
+   its concentration is exactly (mode, float(value), unit), without it is not assigned *)
+Theorem C14_reader_builds_kernel_name_and_concentration : forall ct cd cs cc cm cr,
+  cfg_okb ct cd cs cc cm cr = true ->
+  forall line nm names sst cc0 acc r r' acc',
+  decode line = Ok (SKer nm names sst cc0) -> Forall kname_ok names -> nonempty nm = true -> RGood ct cd cs cc cm cr r ->
+  read_one ct (g cd cs cc cm cr) None (TList line) acc r = (r', Ok acc') ->
+  exists i ob,
+    hget (heap (r_st r')) i = Some ob /\ o_live ob = true /\ o_cls ob = cc /\ o_name ob = nm /\
+    acc' = with_complexes acc (dset nm i (po_complexes acc)) /\
+    r_conc r' = match cc0 with Some x => (i, x) :: r_conc r | None => r_conc r end /\
+    r_seq r' = r_seq r /\ r_rate r' = r_rate r /\ RGood ct cd cs cc cm cr r' /\ RExt r r'.
+Proof. exact reader_builds_kernel_conc. Qed.
+Print Assumptions C14_reader_builds_kernel_name_and_concentration.
